@@ -31,6 +31,11 @@ func Parse(source string) (expr Expression, err error) {
 	if err != nil {
 		return nil, err
 	}
+	if p.val == nil {
+		// the source spelled one of the lexer's statement selectors ("%assign ", "%loop ", ...),
+		// which parse as statements and leave no expression to evaluate
+		return nil, SyntaxError(fmt.Sprintf("syntax error in %q", source))
+	}
 	return &expression{p.val}, nil
 }
 
